@@ -147,6 +147,7 @@ func (p *Prog) ModGraph() *ModGraph {
 		sort.SliceStable(g.Out[f], func(i, j int) bool { return funcKey(g.Out[f][i].To) < funcKey(g.Out[f][j].To) })
 	}
 	p.mg = g
+	factGraph = g
 	return g
 }
 
@@ -318,4 +319,85 @@ func (g *ModGraph) Lift(spec GuardSpec, funcs []*ssa.Function) (sinks []SinkHit,
 		}
 	}
 	return sinks, needs
+}
+
+// paramRoots resolves a value through parameters: a Parameter is replaced by
+// the arguments passed at every direct call site of its function (depth ≤ 3);
+// anything else is its own root. A function that escapes as a value has
+// unknown callers: the parameter itself stays a root.
+func (g *ModGraph) paramRoots(v ssa.Value, depth int) []ssa.Value {
+	v = unwrapLocal(v)
+	p, ok := v.(*ssa.Parameter)
+	if !ok || depth >= 3 {
+		return []ssa.Value{v}
+	}
+	fn := p.Parent()
+	idx := -1
+	for i, pp := range fn.Params {
+		if pp == p {
+			idx = i
+		}
+	}
+	var out []ssa.Value
+	for _, e := range g.In[fn] {
+		if isTestSupport(pkgPathOfFunc(e.From)) {
+			continue
+		}
+		c, isCall := e.Site.(ssa.CallInstruction)
+		if !isCall || e.Escape || c.Common().IsInvoke() || c.Common().StaticCallee() != fn || idx >= len(c.Common().Args) {
+			return []ssa.Value{v}
+		}
+		out = append(out, g.paramRoots(c.Common().Args[idx], depth+1)...)
+	}
+	if len(out) == 0 {
+		return []ssa.Value{v}
+	}
+	return out
+}
+
+// sameRoots: the two values resolve to the same single root.
+func (g *ModGraph) sameRoots(a, b ssa.Value) bool {
+	ra, rb := g.paramRoots(a, 0), g.paramRoots(b, 0)
+	if len(ra) == 0 || len(rb) == 0 {
+		return false
+	}
+	for _, x := range ra {
+		if x != ra[0] {
+			return false
+		}
+	}
+	for _, y := range rb {
+		if y != ra[0] {
+			return false
+		}
+	}
+	return true
+}
+
+// unitFuncs: fn plus the same-package functions reachable from it through
+// direct calls and closures (depth ≤ 3): the code that a refactoring may have
+// split out of fn.
+func (g *ModGraph) unitFuncs(fn *ssa.Function) []*ssa.Function {
+	seen := map[*ssa.Function]bool{fn: true}
+	out := []*ssa.Function{fn}
+	frontier := []*ssa.Function{fn}
+	for d := 0; d < 3; d++ {
+		var next []*ssa.Function
+		for _, f := range frontier {
+			for _, e := range g.Out[f] {
+				t := e.To
+				if seen[t] || t.Blocks == nil || pkgPathOfFunc(t) != pkgPathOfFunc(fn) {
+					continue
+				}
+				if _, ok := e.Site.(ssa.CallInstruction); !ok && !e.Escape {
+					continue
+				}
+				seen[t] = true
+				out = append(out, t)
+				next = append(next, t)
+			}
+		}
+		frontier = next
+	}
+	return out
 }
